@@ -287,17 +287,18 @@ def lexLineAux (lineNo : Nat) : Nat → Nat → Nat → List Char → List LTok
 def lexLine (lineNo off : Nat) (line : List Char) : List LTok :=
   lexLineAux lineNo (line.length + 1) 0 off line
 
-/-- `str::lines()`: split at `\n`; a `\r` immediately before the `\n` is dropped; no empty last line -/
-def splitLines : List Char → List Char → List (List Char)
+/-- `str::lines()`: split at `\n`; a `\r` immediately before the `\n` is dropped; no empty last line.
+    Each line comes with the length of its line ending (2 for `\r\n`, else 1). -/
+def splitLines : List Char → List Char → List (List Char × Nat)
   | [], [] => []
-  | [], acc => [acc.reverse]
+  | [], acc => [(acc.reverse, 1)]
   | '\n' :: cs, acc =>
-      (match acc with | '\r' :: a => a.reverse | a => a.reverse) :: splitLines cs []
+      (match acc with | '\r' :: a => (a.reverse, 2) | a => (a.reverse, 1)) :: splitLines cs []
   | c :: cs, acc => splitLines cs (c :: acc)
 
-def lexLines : Nat → Nat → List (List Char) → List LTok
+def lexLines : Nat → Nat → List (List Char × Nat) → List LTok
   | _, _, [] => []
-  | lineNo, off, l :: ls => lexLine lineNo off l ++ lexLines (lineNo + 1) (off + l.length + 1) ls
+  | lineNo, off, (l, ending) :: ls => lexLine lineNo off l ++ lexLines (lineNo + 1) (off + l.length + ending) ls
 
 /-- `lexer::lex` -/
 def lex (src : List Char) : List LTok :=
